@@ -54,6 +54,9 @@ fn main() {
     if args.len() >= 5 && args[1] == "crashrun" {
         std::process::exit(props::c08::crashrun_main(&args[2..]));
     }
+    if args.len() >= 5 && args[1] == "freezerun" {
+        std::process::exit(props::c10::freezerun_main(&args[2..]));
+    }
     if args.len() < 3 {
         eprintln!("usage: ckbmc check|worker <ID> [--tier quick|thorough] [--replay file]");
         std::process::exit(2);
